@@ -123,7 +123,10 @@ def run_cache(cfg, res):
   world = cachesim.World(ns, trace_files=('cache.py', 'events.py', 'protocols.py'), full_pipeline=True)
   r = gen.rng(cfg['seed'], 'C09', cfg['name'])
   label = 'cache'
-  low = ns.settings.CACHE_SIZE_LOW_WATERMARK
+  low = cfg['max'] * 0.95          # "drained below 95% of MAX_CACHE_SIZE" (statement), not read back from carbon
+  if abs(ns.settings.CACHE_SIZE_LOW_WATERMARK - low) > 1e-9:
+    res.violation('cache/derived-watermark', 'MAX_CACHE_SIZE=%s gives a low watermark of %s by the statement, carbon uses %s' % (
+      cfg['max'], low, ns.settings.CACHE_SIZE_LOW_WATERMARK))
 
   def hot(frame):
     fn = frame.f_code.co_filename
